@@ -24,6 +24,7 @@ type SliceV struct {
 	Base, Off, Len, Cap *Term
 	Elem                types.Type
 	IsString            bool
+	Named               types.Type // the declared (named) slice type, when known
 }
 
 type StructV struct {
@@ -337,7 +338,11 @@ func (ex *Exec) unflatten(t types.Type, leaves []*Term, pos *int) Val {
 		return Scalar{T: nxt(), Typ: t}
 	case *types.Slice:
 		b, o, l, c := nxt(), nxt(), nxt(), nxt()
-		return SliceV{Base: b, Off: o, Len: l, Cap: c, Elem: u.Elem()}
+		sv := SliceV{Base: b, Off: o, Len: l, Cap: c, Elem: u.Elem()}
+		if _, isNamed := t.(*types.Named); isNamed {
+			sv.Named = t
+		}
+		return sv
 	case *types.Pointer:
 		return RefPtr{Ref: nxt(), Elem: u.Elem()}
 	case *types.Interface:
